@@ -39,6 +39,7 @@ ASSUMPTIONS = [
 
 V3 = (0.0, 1.0, 2.0)
 V2 = (0.0, 1.0)
+V4 = (0.0, 1.0, 2.0, 3.0)
 
 
 def keyof(x):
@@ -176,7 +177,7 @@ def d_pso(minimize, neg, cfg):
 
 def d_nm(minimize, neg, cfg):
     m = mod("nelder_mead")
-    f = OracleFn(V3, neg)
+    f = OracleFn(cfg.get("values", V3), neg)
     res = m.nelder_mead(f, cfg["x0"], minimize=minimize, max_iter=cfg["max_iter"], adaptive=cfg["adaptive"], initial_step=1.0, **stopper(cfg.get("stop")))
     return res, f, None
 
@@ -203,7 +204,7 @@ DRIVERS = {
     "anneal": (d_anneal, [dict(cooling=c, max_iter=3, stop=s) for c in ("exp", "lin", "log") for s in (0, 1, 2)], None),
     "tabu_search": (d_tabu, [dict(moves=mv, cooldown=cd, max_iter=3, stop=s) for mv in (2, 3) for cd in (1, 2) for s in (0, 1, 2)], None),
     "lns": (d_lns, [dict(accept=a, max_iter=3 if a != "simulated_annealing" else 2, stop=s) for a in ("improving", "accept_all", "simulated_annealing") for s in (0, 1, 2)], None),
-    "alns": (d_alns, [dict(accept="improving", max_iter=2, segment=sg, stop=s) for sg in (1, 2) for s in (0, 1)] + [dict(accept="simulated_annealing", max_iter=2, segment=1, stop=0, max_dev=3), dict(accept="accept_all", max_iter=3, segment=2, stop=0, max_dev=3)], None),
+    "alns": (d_alns, [dict(accept="improving", max_iter=2, segment=sg, stop=s) for sg in (1, 2) for s in (0, 1)] + [dict(accept="simulated_annealing", max_iter=2, segment=1, stop=0, max_dev=3), dict(accept="accept_all", max_iter=3, segment=2, stop=0, max_dev=3), dict(accept="accept_all", max_iter=3, segment=2, stop=2, max_dev=3), dict(accept="accept_all", max_iter=2, segment=1, stop=1), dict(accept="simulated_annealing", max_iter=3, segment=1, stop=2, max_dev=3)], None),
     "evolve": (
         d_evolve,
         [dict(adaptive=ad, k=1, max_iter=1, stop=0, elite=1) for ad in (False, True)]
@@ -219,7 +220,7 @@ DRIVERS = {
         None,
     ),
     "particle_swarm": (d_pso, [dict(max_iter=1, init=[[1.0], [3.0]], stop=0), dict(max_iter=1, init=[[0.0], [4.0]], stop=0), dict(max_iter=2, init=[[1.0], [3.0]], stop=1, values=V3, max_dev=3), dict(max_iter=2, init=None, stop=0, values=V3, max_dev=3)], None),
-    "nelder_mead": (d_nm, [dict(x0=[0.0], max_iter=mi, adaptive=False, stop=s) for mi in (1, 2, 3) for s in (0, 1, 2)] + [dict(x0=[0.0, 0.0], max_iter=2, adaptive=ad, stop=s) for ad in (False, True) for s in (0, 1)], None),
+    "nelder_mead": (d_nm, [dict(x0=[0.0], max_iter=mi, adaptive=False, stop=s) for mi in (1, 2, 3) for s in (0, 1, 2)] + [dict(x0=[0.0], max_iter=mi, adaptive=False, stop=0, values=V4) for mi in (1, 2)] + [dict(x0=[0.0, 0.0], max_iter=1, adaptive=False, stop=0, values=V4)] + [dict(x0=[0.0, 0.0], max_iter=2, adaptive=ad, stop=s) for ad in (False, True) for s in (0, 1)], None),
     "bayesian_opt": (d_bayes, [dict(acq=a, max_iter=3, stop=0) for a in ("ei", "ucb")] + [dict(acq="ei", max_iter=4, stop=s, max_dev=2) for s in (0, 3)], None),
     "bfgs": (d_bfgs, [dict(which=w, max_iter=2, stop=s, max_dev=2) for w in ("bfgs", "lbfgs") for s in (0, 1)], "point_only"),
 }
@@ -359,7 +360,7 @@ def _fn_chunk(params, lo, hi):
         for x0 in starts:
             for minimize in (True, False):
                 for mi in (1, 2, 5):
-                    for bounds in (None, "box"):
+                    for bounds in (None, "box", "pinned"):
                         cases.append((fn, x0, minimize, mi, bounds))
     r = new_result()
     for idx in range(lo, min(hi, len(cases))):
@@ -372,7 +373,10 @@ def _fn_chunk(params, lo, hi):
             calls[tuple(x)] = v
             return v
 
-        b = [(-2.0, 3.0)] * len(x0) if bounds else None
+        if bounds == "pinned":  # last coordinate fixed by its bounds (lo == hi), the others boxed
+            b = [(-2.0, 3.0)] * (len(x0) - 1) + [(1.0, 1.0)]
+        else:
+            b = [(-2.0, 3.0)] * len(x0) if bounds else None
         wit = {"function": fn, "x0": x0, "minimize": minimize, "max_iter": mi, "bounds": b}
         runs = [("powell", lambda: pw.powell(obj, x0, minimize=minimize, bounds=b, max_iter=mi))]
         if not bounds:
@@ -406,7 +410,7 @@ def _fn_chunk(params, lo, hi):
     return r
 
 
-N_FN_CASES = 8 * 5 * 2 * 3 * 2
+N_FN_CASES = 8 * 5 * 2 * 3 * 3
 
 # ------------------------------------------------------------------------------------------ real seeds
 
